@@ -16,6 +16,11 @@ extern "C" {
 #define SIM_TSAN 1
 #define SIM_ASAN 2
 extern const int sim_flavour;  // defined by the world (per build)
+// plain flavour started under `valgrind --tool=drd`: the operand-memory race detector for what ThreadSanitizer does not
+// instrument (32-byte vector accesses, the assembly kernels). Only accesses made inside library calls are recorded.
+int sim_drd_mode(void);
+void sim_drd_thread_init(void);  // every new thread: ignore accesses until the first library call
+unsigned sim_drd_error_count(void);
 
 // ------------------------------------------------------------------ heap
 enum { SIM_FILL_ZERO = 0, SIM_FILL_FF = 1, SIM_FILL_QNAN = 2, SIM_FILL_SNAN = 3, SIM_FILL_RANDOM = 4, SIM_FILL_A5 = 5, SIM_FILL_NKINDS = 6 };
